@@ -1,5 +1,5 @@
 (* C14 correspondence: cases as printed by harness/c14. *)
-From Verif Require Export Lib.Base Model.C14_Subscriptions.
+From Verif Require Export Lib.Base Model.C14_Subscriptions Model.C14_Spec.
 
 (* What the harness observed for one operation.  Every list is sorted by the harness: a payload by
    (slot, committee, validator), the stored info and the jobs by (slot, committee). *)
@@ -68,7 +68,7 @@ Definition agree (c : case) : bool := outs_agree (snd (run (c_pr c) init (c_ops 
    [spec_is_aggregator] on the digest the harness computed itself. *)
 
 Definition pair_eqb := prod_eqb N.eqb N.eqb.
-Definition dkey (d : duty) : N * N := (d_slot d, d_comm d).
+(* dkey, jkey, selected: Model.C14_Spec *)
 
 Fixpoint nodupb {A} (eqb : A -> A -> bool) (l : list A) : bool :=
   match l with
@@ -84,7 +84,6 @@ Definition consistent (ds : list duty) : bool :=
     then (d_cas a =? d_cas b) && (if d_comm a =? d_comm b then d_len a =? d_len b else true)
     else true) ds) ds.
 
-Definition selected (tgt : N) (d : duty) : bool := spec_is_aggregator (d_len d) tgt (d_hash d).
 
 (* Subscribe: the union of the submitted payloads is exactly one subscription per (slot, committee)
    with a duty in a slot after [cur] (whose slot could be signed), whatever else the epoch holds;
@@ -118,7 +117,6 @@ Fixpoint known_get (ep : N) (k : known) : option (list N * list duty) :=
 Definition known_set (ep : N) (v : list N * list duty) (k : known) : known :=
   (ep, v) :: filter (fun x => negb (fst x =? ep)) k.
 
-Definition jkey (j : job) : N * N := (j_slot j, j_comm j).
 
 (* AttestAndScheduleAggregate: nothing already scheduled is lost or changed; every job carries into
    Aggregate exactly the duty it was scheduled with; every new job is for a committee of an
